@@ -323,6 +323,30 @@ pub fn cross_sessions(depth: u8) -> Vec<Session> {
     out
 }
 
+/// En-passant twins on one table: the same diagram with and without the right to capture en passant (reached by a
+/// double step, written in the FEN, or absent), searched one after the other. A key that does not tell the twins
+/// apart hands the capture of one to the other, where it is not a legal move.
+pub fn ep_twin_sessions(depth: u8) -> Vec<Session> {
+    let mut out = vec![];
+    for (before, push, with_ep, without) in [
+        ("6k1/p2p1pp1/7p/4P3/2R5/7P/Pr3PP1/6K1 b - - 0 1", "d7d5", "6k1/p4pp1/7p/3pP3/2R5/7P/Pr3PP1/6K1 w - d6 0 2", "6k1/p4pp1/7p/3pP3/2R5/7P/Pr3PP1/6K1 w - - 0 2"),
+        ("6k1/p2p1pp1/7p/4P3/2Q5/7P/Pr3PP1/6K1 b - - 0 1", "d7d5", "6k1/p4pp1/7p/3pP3/2Q5/7P/Pr3PP1/6K1 w - d6 0 2", "6k1/p4pp1/7p/3pP3/2Q5/7P/Pr3PP1/6K1 w - - 0 2"),
+        ("6k1/pR3pp1/7p/2r5/4p3/7P/P2P1PP1/6K1 w - - 0 1", "d2d4", "6k1/pR3pp1/7p/2r5/3Pp3/7P/P4PP1/6K1 b - d3 0 1", "6k1/pR3pp1/7p/2r5/3Pp3/7P/P4PP1/6K1 b - - 0 1"),
+    ] {
+        let firsts = [GameSpec::fen(before), GameSpec { fen: before.to_string(), moves: vec![push.to_string()] }, GameSpec::fen(with_ep)];
+        for a in firsts {
+            let mut steps = vec![Step::Search(a.clone(), Spec::depth(depth), Env::Default)];
+            for d in 1..=4u8 {
+                steps.push(Step::Search(GameSpec::fen(without), Spec::depth(d), Env::Default));
+            }
+            out.push(Session { hash_mb: 1, start_gen: 0, steps });
+            // and the other way round
+            out.push(Session { hash_mb: 1, start_gen: 0, steps: vec![Step::Search(GameSpec::fen(without), Spec::depth(depth), Env::Default), Step::Search(a.clone(), Spec::depth(3), Env::Default), Step::Search(GameSpec::fen(without), Spec::depth(2), Env::Default)] });
+        }
+    }
+    out
+}
+
 /// Searches to the maximum depth on tiny trees (the iteration counter and the depth arithmetic at their limits).
 pub fn max_depth_sessions() -> Vec<Session> {
     let roots = [
@@ -449,6 +473,13 @@ pub fn c04_c08(run: &Run, focus: Focus) -> (u64, u64) {
     run_sessions(run, focus, &sessions, &stats);
     total_sessions += sessions.len() as u64;
     run.family("CROSS", "ordered pairs of 6 roots sharing one table (a, b, a) and (a, ucinewgame, b) from generation 255", sessions.len() as u64, stats.searches.load(Ordering::Relaxed) - before, true, "");
+    {
+        let s = ep_twin_sessions(if quick { 6 } else { 8 });
+        let before = stats.searches.load(Ordering::Relaxed);
+        run_sessions(run, focus, &s, &stats);
+        total_sessions += s.len() as u64;
+        run.family("EP-TWINS", "3 diagrams x {before the double step, after it (played), after it (FEN with the square)} followed on the same table by the twin without the en-passant right at depths 1..4, and the reverse order", s.len() as u64, stats.searches.load(Ordering::Relaxed) - before, true, "");
+    }
     {
         let s = max_depth_sessions();
         let before = stats.searches.load(Ordering::Relaxed);
